@@ -252,6 +252,8 @@ def sched_signature(sim: Sim) -> str:
         if op in ("replace", "put", "delete", "remove", "flock", "unflock", "create") or "HINT" in target \
                 or target == ir.HINT:
             h.update(f"{actor}|{op}|{target.split('/')[0]}|{outcome[:3]};".encode())
+    for f in sim.fired_log:
+        h.update(f"F|{f['kind']}|{f['actor']}|{f['step']}|{f['op']}|{f['cls']};".encode())
     return h.hexdigest()
 
 
